@@ -5,6 +5,7 @@ from llsym import Finding, Sym, PathEnd
 from irparse import IntTy, FloatTy
 i8, i32, i64 = IntTy(8), IntTy(32), IntTy(64)
 UNDEF = 2147483647
+FITLEN = 40
 (OP_POINT, OP_LS_START, OP_LS_ADD, OP_LS_FINISH, OP_PG_START, OP_PG_ADD, OP_PG_FINISH, OP_MP_START, OP_MP_PSTART, OP_MP_PFINISH,
  OP_MP_OSTART, OP_MP_OFINISH, OP_MP_ISTART, OP_MP_IFINISH, OP_MP_ADD, OP_MP_FINISH) = range(100, 116)
 
@@ -151,7 +152,7 @@ class Rd:
         bo = self.I.concretize(self.byte(), 'byte order')
         if bo != 1: raise Finding('wkb', 'byte order marker %d' % bo)
         t = self.u32()
-        if ewkb and first:
+        if ewkb and (first or t & 0x20000000):          # EWKB: the SRID flag is mandatory on the outermost geometry and allowed on nested ones
             if t != (want_type | 0x20000000): raise Finding('wkb', 'EWKB type word %x' % t)
             if self.u32() != 4326: raise Finding('wkb', 'EWKB SRID differs')
         elif t != want_type: raise Finding('wkb', 'geometry type %x, expected %x' % (t, want_type))
@@ -226,8 +227,11 @@ def install_snprintf(I):
         size = I.concretize(size, 'size')
         prec = I.d2s['prec']
         ln = I.named('len', 32); t = I.term(ln, 32)
-        I.assume(z3.And(z3.UGE(t, 1), z3.ULE(t, 340)))                 # would-be length of "%.*f" (C11 7.21.6.5)
-        lnc = I.concretize(ln, 'snprintf length') if I.decide(I.icmp('ult', 32, ln, size), 'fits') else None
+        I.assume(z3.And(z3.UGE(t, 1), z3.ULE(t, 310 + (prec + 1 if prec else 0))))    # would-be length of "%.*f" of a finite double: sign, <= 309 digits, point, precision digits
+        if I.decide(I.icmp('ult', 32, ln, size), 'fits'):
+            I.assume_feasible(z3.ULE(t, FITLEN))             # texts that fit are enumerated up to FITLEN characters (stated bound)
+            lnc = I.decide_value(ln, 'snprintf length', cap=FITLEN + 1) if isinstance(ln, Sym) else ln
+        else: lnc = None
         w = lnc if lnc is not None else size - 1
         full = lnc if lnc is not None else None
         # shape of "%.<prec>f": [-]digits[.<prec digits>]; the harness knows where the dot is when the text is complete
@@ -304,7 +308,9 @@ def gen_locs(n):
 
 
 def harnesses(tier):
+    global FITLEN
     q = tier == 'quick'
+    FITLEN = 40 if q else 120
     hs = []
     n = 3 if q else 4
     jobs = [dict(what=0, un=0, dir=0, n=1)] + [dict(what=1, un=u, dir=d, n=n) for u in (0, 1) for d in (0, 1)] + [dict(what=2, un=u, dir=d, n=5 if not q else 4) for u in (0, 1) for d in (0, 1)]
@@ -323,7 +329,7 @@ def harnesses(tier):
                       desc='real WKBFactoryImpl (WKB / EWKB, binary / hex) read back by an independent WKB reader: type words, SRID, back-patched counts equal the encoded elements, coordinates in order',
                       bounds='ways of <= 4 nodes, one area with 3 rings', wall=900))
     hs.append(Harness('double2string', 'geom', h_double2string, jobs=[dict(prec=p) for p in ((0, 1, 7, 17) if q else range(0, 18))], setup=install_snprintf, reach=('end',),
-                      desc='double2string under the C11 contract of snprintf("%.*f"): arbitrary text of the right shape and arbitrary reported length (1..340): output = the text with trailing zeros removed only behind a decimal point; a reported length beyond the internal buffer must not be used',
-                      bounds='precision %s; reported length <= 340' % ('0, 1, 7, 17' if q else '0..17'), sanitize=True, wall=900,
+                      desc='double2string under the C11 contract of snprintf("%.*f"): arbitrary text of the right shape and arbitrary reported length (1 .. longest text of a finite double): output = the text with trailing zeros removed only behind a decimal point; a reported length beyond the internal buffer must not be used',
+                      bounds='precision %s; complete texts up to %d characters; reported length <= 310 + precision + 1 (longest text of a finite double)' % ('0, 1, 7, 17' if q else '0..17', FITLEN), sanitize=True, wall=900,
                       tests=[dict(_job=0, len=2, neg=0, ch0=49, ch1=48), dict(_job=1, len=3, neg=0, ch0=50, ch2=53)]))
     return hs
